@@ -15,6 +15,7 @@ import (
 	"strings"
 
 	"buf.build/gen/go/bufbuild/protovalidate/protocolbuffers/go/buf/validate"
+	"github.com/iancoleman/strcase"
 	"github.com/pentops/j5/gen/j5/ext/v1/ext_j5pb"
 	"github.com/pentops/j5/gen/j5/list/v1/list_j5pb"
 	"github.com/pentops/j5/lib/id62"
@@ -503,6 +504,7 @@ func (d *dumper) sumTarget(fd protoreflect.FieldDescriptor) {
 		p, n := splitName(fd.Enum())
 		d.tok("(")
 		d.tok("e")
+		d.str(string(fd.Enum().FullName()))
 		d.str(p)
 		d.str(n)
 		d.tok(")")
@@ -557,6 +559,7 @@ func (d *dumper) sumField(m protoreflect.MessageDescriptor, fd protoreflect.Fiel
 func (d *dumper) sumEnum(e protoreflect.EnumDescriptor) {
 	_, sn := splitName(e)
 	d.tok("(")
+	d.str(string(e.FullName()))
 	d.str(string(e.Name()))
 	d.str(sn)
 	eo, _ := proto.GetExtension(e.Options(), ext_j5pb.E_Enum).(*ext_j5pb.EnumOptions)
@@ -576,6 +579,7 @@ func (d *dumper) sumEnum(e protoreflect.EnumDescriptor) {
 func (d *dumper) sumMsg(m protoreflect.MessageDescriptor) {
 	_, sn := splitName(m)
 	d.tok("(")
+	d.str(string(m.FullName()))
 	d.str(string(m.Name()))
 	d.str(sn)
 	mo, _ := proto.GetExtension(m.Options(), ext_j5pb.E_Message).(*ext_j5pb.MessageOptions)
@@ -614,8 +618,11 @@ func (d *dumper) sumMsg(m protoreflect.MessageDescriptor) {
 	d.tok("[")
 	for i := 0; i < m.Oneofs().Len(); i++ {
 		o := m.Oneofs().Get(i)
+		_, osn := splitName(o)
 		d.tok("(")
 		d.str(string(o.Name()))
+		d.str(osn)
+		d.str(strcase.ToLowerCamel(string(o.Name()))) // jsonFieldName: iancoleman/strcase is trusted here
 		d.boolean(o.IsSynthetic())
 		oe, _ := proto.GetExtension(o.Options(), ext_j5pb.E_Oneof).(*ext_j5pb.OneofOptions)
 		switch {
